@@ -11,6 +11,14 @@ CLAIMS = {
    technique="sibling-iteration loop discovery on SSA + effect summaries (PEA, callbacks closed over the call graph) for iterator invalidation; table extraction for inline-tag handling; who-writes rule for the flush flag; loop transition extraction for ApplyToModel",
    text="Decides the structural causes by which a simple paragraph could be cut: (I1) no sibling walk anywhere in the analysed program can have its cursor's link rewritten by a call made before the cursor advances (the WalkNodes defect class), (I2) the nine simple inline tags are inline, never flush or label a block, are never dropped unconditionally, and only SkipNode/StartNode raise the flush flag, (I3) a content block marks every one of its Text elements. Not decided: the classifier's content decision itself.",
    design="4/C03"),
+ "C05": dict(
+   technique="sibling-agreement dataflow rule over all Element.GenerateOutput implementations (same-SSA-value strip-before-serialise with helper/field summaries, must-pass-through on the CFG), literal allow-list extraction, decision-list conformance of the clone visitor",
+   text="Decides for every element kind and every path that whatever reaches dom.OuterHTML/InnerHTML has passed StripAttributes as the same value (or comes from a helper/field that always strips, or is the distiller's own placeholder wrapper with stripped children), that nothing is added afterwards, that the allow-list has no on* attribute and id/class/style are always dropped for root and descendants, and that script/style and hidden nodes cannot enter wholesale clones or the main walk. Not decided: the serializer and attribute values.",
+   design="4/C05"),
+ "C06": dict(
+   technique="field-initialisation completeness over composite literals, same-SSA-value absolutise-before-serialise rule with helper/field summaries, constant coverage extraction, decision-list conformance of CreateAbsoluteURL, writer/reader tokeniser agreement, PEA for the stability of the base URL",
+   text="Decides that every element that can carry a URL is given the page URL at construction, that each serialised tree was absolutised with the element's own PageURL on all paths, that the absolutisers cover href/poster/src/srcset and resolve exactly by the documented pass-through list, that ContentImages come from the serialised clones, and that the base URL object is never written. Not decided: RFC 3986 resolution and the srcset grammar.",
+   design="4/C06"),
  "C07": dict(
    technique="path enumeration of the converter visitor with emission events (balanced start/end placeholders), CanBeNested table extraction, loop transition-function extraction of the retainer, clone-as-unit and append-only rules",
    text="Decides the structural necessary conditions of nesting preservation: start and end placeholders are emitted under the same predicate application with the node's own tag name; a nestable element that got its start tag is always walked so its end tag follows; tags are never renamed across the nestable boundary; the retainer's per-element transition (boolean part) is the documented one; data tables are stored, cloned and serialised as one unit from an append-only node list; text rooted at a nestable element emits inner HTML. Not decided: the retainer's integer stack-mark logic and HTML re-parsing.",
@@ -19,6 +27,10 @@ CLAIMS = {
    technique="loop transition-function extraction (one iteration of RelevantElements.Process as a decision list over boolean loop state) + call ordering (must-pass-through) + layering (who-may-call) + loop/promotion rules",
    text="Decides that the retention automaton for non-text elements is exactly: content element opens a run, dropped text closes it, any other element is retained iff the run is open; that the filters run in the fixed order after text classification; that the lead-image promotion is a single SetIsContent(true) outside loops over candidates that are dropped images/figures before the last retained text; and that nobody else writes the content flag. This is the structural form of 'retained iff the nearest preceding text block is retained, plus at most one lead image'. Not decided: scorer arithmetic and the classifier's choice of text blocks.",
    design="4/C08"),
+ "C09": dict(
+   technique="single-source rule per GenerateOutput implementation (text and HTML return values traced to the same SSA value/field), canonical-expression checks of Apply's result stores, loop transition extraction of Document.GenerateOutput, decision-list conformance of ExtractContent",
+   text="Decides that the views cannot diverge structurally: each element renders text and HTML from one processed clone (or has no text in either view), ContentImages are read from the serialised clones with the same srcset tokeniser, Apply takes Text/Node/WordCount/ContentImages from one ExtractContent call and one Document, and the document emitters skip exactly non-content elements in list order. One implementation (Embed) violates the rule on the current tree and is a listed known finding. Not decided: word-level equality and the numeric WordCount relation.",
+   design="4/C09"),
  "C10": dict(
    technique="whole-program provenance & effects analysis (summary-based may-write analysis over go/ssa with symbolic parameter regions, deferred higher-order calls, VTA call graph)",
    text="Decides for all inputs, options and entry points that no store, in-place append, copy or mutating library call reachable from Apply/ApplyForReader/ApplyForFile/ApplyForURL can target memory of the caller's node tree, Options value or URL. A may-analysis: it can only over-report, every report names the store and the call chain. Positive controls (known mutators must be seen mutating; dom.Clone must be classified fresh) guard against vacuity.",
